@@ -162,7 +162,19 @@ def cfg(draw, max_dim=208, presets=(8, 8, 8, 7, 7, 6, 6, 5, 4), frames=(2, 16), 
     return c, n, twopass
 
 
+def is_ipmg(c):
+    """the listed 'intra period == mini-GOP' stall (known_findings: IPMG): intra_period_length + 1 == 2^hierarchical_levels with 1-3 levels,
+    at most 2 logical processors and the TPL look-ahead on"""
+    hl = c.get("hierarchical_levels", 4)
+    return 1 <= hl <= 3 and c.get("intra_period_length", -2) + 1 == (1 << hl) and c.get("logical_processors", 0) in (1, 2) and c.get("enable_tpl_la", 1) != 0
+
+
 def case_from(c, n, twopass, cnt, **kw):
+    if n > 16 and is_ipmg(c) and not kw.get("keep_ipmg"):
+        # excluded by construction (streams of a few dozen pictures stall): the intra period is doubled
+        c["intra_period_length"] = 2 * (c["intra_period_length"] + 1) - 1
+        c["__excluded__"] = list(c.get("__excluded__", [])) + ["IPMG"]
+    kw.pop("keep_ipmg", None)
     case = dict(cfg=c, frames=n, content=cnt)
     if twopass:
         case["twopass"] = 1
